@@ -9,7 +9,7 @@ for the suffix `<tag>\n` preceded by nothing or by a newline), `unquote_str` / `
 (the end tag is the unquoted delimiter word), `brush-parser/src/parser/peg.rs` `io_here`
 (`requires_expansion` = the delimiter word holds no `'`, `"` or `\`) and the here-document word
 grammar of `brush-parser/src/word.rs` (`heredoc_escape_sequence`: only `\$`, `` \` `` and `\\` are
-escapes; a backslash-newline stays).
+escapes, and a backslash-newline is removed), `ends_with_line_continuation`.
 -/
 namespace BrushVerif.HereDoc
 open BrushVerif.Wire
@@ -37,27 +37,41 @@ def endTag (tagWord : Str) : Str := if tagWord.any isQuoting then unquote tagWor
 def stripSuffix? (s suf : Str) : Option Str :=
   if suf.isSuffixOf s then some (s.take (s.length - suf.length)) else none
 
-/-- `remove_here_end_tag`: the body if the token now ends with the tag on a line of its own -/
-def endsDoc (tok tagLine : Str) : Option Str :=
+/-- number of backslashes at the end -/
+def trailingBackslashes (s : Str) : Nat := (s.reverse.takeWhile (· = '\\')).length
+
+/-- `ends_with_line_continuation`: the text ends with an unescaped backslash followed by a newline -/
+def endsCont (s : Str) : Bool :=
+  match stripSuffix? s ['\n'] with
+  | some l => trailingBackslashes l % 2 = 1
+  | none => false
+
+/-- `remove_here_end_tag`: the body if the token now ends with the tag on a line of its own; with an
+unquoted delimiter (`expands`) a line continued by a backslash-newline swallows the next line -/
+def endsDoc (expands : Bool) (tok tagLine : Str) : Option Str :=
   match stripSuffix? tok tagLine with
-  | some pre => if pre.isEmpty || pre.getLast? = some '\n' then some pre else none
+  | some pre =>
+    if pre.isEmpty || pre.getLast? = some '\n' then
+      (if expands && endsCont pre then none else some pre)
+    else none
   | none => none
 
 /-- the `InHereDocs` loop: `tok` is the token so far; returns the body and the remaining input -/
-def scan (removeTabs : Bool) (tag : Str) : Str → Str → Option (Str × Str)
-  | tok, [] => (endsDoc tok tag).map fun b => (b, [])
+def scan (removeTabs expands : Bool) (tag : Str) : Str → Str → Option (Str × Str)
+  | tok, [] => (endsDoc expands tok tag).map fun b => (b, [])
   | tok, c :: rest =>
-    if removeTabs && (tok.isEmpty || tok.getLast? = some '\n') && c = '\t' then scan removeTabs tag tok rest
+    if removeTabs && (tok.isEmpty || tok.getLast? = some '\n') && c = '\t' && (!expands || !endsCont tok) then
+      scan removeTabs expands tag tok rest
     else if c = '\n' then
-      match endsDoc (tok ++ [c]) (tag ++ ['\n']) with
+      match endsDoc expands (tok ++ [c]) (tag ++ ['\n']) with
       | some b => some (b, rest)
-      | none => scan removeTabs tag (tok ++ [c]) rest
-    else scan removeTabs tag (tok ++ [c]) rest
+      | none => scan removeTabs expands tag (tok ++ [c]) rest
+    else scan removeTabs expands tag (tok ++ [c]) rest
 
 /-- body and rest of the here-document introduced by `<<tagWord` / `<<-tagWord`, given the text after
 the line that holds the operator -/
 def scanDoc (removeTabs : Bool) (tagWord : Str) (text : Str) : Option (Str × Str) :=
-  scan removeTabs (endTag tagWord) [] text
+  scan removeTabs (requiresExpansion tagWord) (endTag tagWord) [] text
 
 def isNameStart (c : Char) : Bool := c.isAlpha || c = '_'
 def isNameChar (c : Char) : Bool := c.isAlphanum || c = '_'
@@ -68,7 +82,8 @@ def expandGo (xval : Str) : Nat → Str → Str
   | 0, _ => []
   | _, [] => []
   | fuel + 1, '\\' :: c :: rest =>
-    if c = '$' || c = '`' || c = '\\' then c :: expandGo xval fuel rest
+    if c = '\n' then expandGo xval fuel rest
+    else if c = '$' || c = '`' || c = '\\' then c :: expandGo xval fuel rest
     else '\\' :: expandGo xval fuel (c :: rest)
   | fuel + 1, '$' :: c :: rest =>
     if isNameStart c then
